@@ -21,6 +21,8 @@ Arguments Z.of_nat : simpl never.
 Arguments Z.to_nat : simpl never.
 
 (* ------------------------------------------------------------------------------------- *)
+Ltac splits := repeat match goal with |- _ /\ _ => split end.
+
 (* rows of lists of fill items *)
 Definition rs (l : list fitem) : list (Z * Z) := flat_map rows_of l.
 Fixpoint tot (l : list fitem) : Z := match l with [] => 0 | x :: r => snd x + tot r end.
@@ -90,30 +92,36 @@ Lemma fill_up2_spec : forall above fl o trt acc,
     fill_up2 above fl o trt acc
       = (acc ++ filter nzf taken, rest, o - Z.max 0 (fl - tot taken),
          if fl <? tot taken then tot taken - fl else trt)
-    /\ above = taken ++ rest /\ (tot taken < fl -> rest = []) /\ (fl = 0 -> taken = []).
+    /\ above = taken ++ rest /\ (tot taken < fl -> rest = []) /\ (fl = 0 -> taken = []) /\
+    (0 < fl -> fl < tot taken -> exists pre x, taken = pre ++ [x] /\ tot pre < fl).
 Proof.
   induction above as [|[pos p] rest0 IH]; intros fl o trt acc Hfl Hnn.
   - exists [], []. cbn [fill_up2 tot filter app]. rewrite app_nil_r.
     destruct (fl <=? 0) eqn:E.
     + replace (Z.max 0 (fl - 0)) with 0 by lia. replace (o - 0) with o by lia.
-      destruct (fl <? 0) eqn:E2; [lia|]. repeat split; auto.
+      destruct (fl <? 0) eqn:E2; [lia|]. splits; auto; intros; lia.
     + replace (Z.max 0 (fl - 0)) with fl by lia.
-      destruct (fl <? 0) eqn:E2; [lia|]. repeat split; auto.
+      destruct (fl <? 0) eqn:E2; [lia|]. splits; auto; intros; lia.
   - inversion Hnn as [|? ? Hp Hrest]; subst. cbn [snd] in Hp.
     cbn [fill_up2]. destruct (fl <=? 0) eqn:E.
     + exists [], ((pos, p) :: rest0). cbn [tot filter app]. rewrite app_nil_r.
       replace (Z.max 0 (fl - 0)) with 0 by lia. replace (o - 0) with o by lia.
-      destruct (fl <? 0) eqn:E2; [lia|]. repeat split; auto. intros; lia.
+      destruct (fl <? 0) eqn:E2; [lia|]. splits; auto; intros; lia.
     + destruct (fl <? p) eqn:E1.
       * exists [(pos, p)], rest0. cbn [tot filter app]. unfold nzf. cbn [snd].
         destruct (p =? 0) eqn:E0; [lia|]. cbn [negb].
         replace (p + 0) with p by lia. rewrite E1.
         replace (Z.max 0 (fl - p)) with 0 by lia. replace (o - 0) with o by lia.
-        repeat split; auto; intros; lia.
+        splits; auto; try (intros; lia); intros; exists [], (pos, p); split; [reflexivity | cbn [tot]; lia].
       * destruct (IH (fl - p) o trt (if p =? 0 then acc else acc ++ [(pos, p)]) ltac:(lia) Hrest)
-          as (taken & rest & Heq & Habove & Hex & Hz).
+          as (taken & rest & Heq & Habove & Hex & Hz & Hl).
         exists ((pos, p) :: taken), rest. rewrite Heq. cbn [tot filter app snd]. unfold nzf at 2. cbn [snd].
-        split; [|split; [now rewrite Habove | split; [intros; apply Hex; lia | intros; lia]]].
+        split; [|split; [now rewrite Habove | split; [intros; apply Hex; lia | split; [intros; lia |]]]].
+        2: { intros H0 Hlt.
+             assert (Hpos : 0 < fl - p).
+             { destruct (Z.eq_dec (fl - p) 0) as [Hq|Hq]; [|lia]. rewrite (Hz ltac:(lia)) in Hlt. cbn [tot] in Hlt. lia. }
+             destruct (Hl Hpos ltac:(lia)) as (pre & x & Hpre & Htp).
+             exists ((pos, p) :: pre), x. split; [now rewrite Hpre | cbn [tot snd]; lia]. }
         f_equal; [f_equal; [f_equal|]|].
         -- destruct (p =? 0); cbn [negb]; [reflexivity|]. now rewrite <- app_assoc.
         -- lia.
@@ -126,27 +134,33 @@ Lemma fill_down_spec : forall below fl trb acc,
     fill_down below fl trb acc
       = (acc ++ filter nzf taken, fl - tot taken,
          if (0 <? fl) && (fl <? tot taken) then tot taken - fl else trb)
-    /\ below = taken ++ rest /\ (0 < fl - tot taken -> rest = []) /\ (fl <= 0 -> taken = []).
+    /\ below = taken ++ rest /\ (0 < fl - tot taken -> rest = []) /\ (fl <= 0 -> taken = []) /\
+    (0 < fl -> fl < tot taken -> exists pre x, taken = pre ++ [x] /\ tot pre < fl).
 Proof.
   induction below as [|[pos p] rest0 IH]; intros fl trb acc Hnn.
   - exists [], []. cbn [fill_down tot filter app]. rewrite app_nil_r.
     replace (fl - 0) with fl by lia.
-    destruct (fl <=? 0) eqn:E; destruct ((0 <? fl) && (fl <? 0)) eqn:E2; try lia; repeat split; auto.
+    destruct (fl <=? 0) eqn:E; destruct ((0 <? fl) && (fl <? 0)) eqn:E2; try lia; splits; auto; intros; lia.
   - inversion Hnn as [|? ? Hp Hrest]; subst. cbn [snd] in Hp.
     cbn [fill_down]. destruct (fl <=? 0) eqn:E.
     + exists [], ((pos, p) :: rest0). cbn [tot filter app]. rewrite app_nil_r.
       replace (fl - 0) with fl by lia.
-      destruct ((0 <? fl) && (fl <? 0)) eqn:E2; [lia|]. repeat split; auto. intros; lia.
+      destruct ((0 <? fl) && (fl <? 0)) eqn:E2; [lia|]. splits; auto; intros; lia.
     + destruct (fl <? p) eqn:E1.
       * exists [(pos, p)], rest0. cbn [tot filter app]. unfold nzf. cbn [snd].
         destruct (p =? 0) eqn:E0; [lia|]. cbn [negb].
         replace (p + 0) with p by lia.
         destruct ((0 <? fl) && (fl <? p)) eqn:E2; [|lia].
-        repeat split; auto; intros; lia.
+        splits; auto; try (intros; lia); intros; exists [], (pos, p); split; [reflexivity | cbn [tot]; lia].
       * destruct (IH (fl - p) trb (if p =? 0 then acc else acc ++ [(pos, p)]) Hrest)
-          as (taken & rest & Heq & Hbelow & Hex & Hz).
+          as (taken & rest & Heq & Hbelow & Hex & Hz & Hl).
         exists ((pos, p) :: taken), rest. rewrite Heq. cbn [tot filter app snd]. unfold nzf at 2. cbn [snd].
-        split; [|split; [now rewrite Hbelow | split; [intros; apply Hex; lia | intros; lia]]].
+        split; [|split; [now rewrite Hbelow | split; [intros; apply Hex; lia | split; [intros; lia |]]]].
+        2: { intros H0 Hlt.
+             assert (Hpos : 0 < fl - p).
+             { destruct (Z.eq_dec (fl - p) 0) as [Hq|Hq]; [|lia]. rewrite (Hz ltac:(lia)) in Hlt. cbn [tot] in Hlt. lia. }
+             destruct (Hl Hpos ltac:(lia)) as (pre & x & Hpre & Htp).
+             exists ((pos, p) :: pre), x. split; [now rewrite Hpre | cbn [tot snd]; lia]. }
         f_equal; [f_equal|].
         -- destruct (p =? 0); cbn [negb]; [reflexivity|]. now rewrite <- app_assoc.
         -- lia.
@@ -164,27 +178,33 @@ Lemma fill_up4_spec : forall above fl o trt acc,
     fill_up4 above fl o trt acc
       = (acc ++ taken, o + Z.min (Z.max 0 fl) (tot taken),
          if (0 <? fl) && (fl <? tot taken) then tot taken - fl else trt)
-    /\ above = taken ++ rest /\ (tot taken < fl -> rest = []) /\ (fl <= 0 -> taken = []).
+    /\ above = taken ++ rest /\ (tot taken < fl -> rest = []) /\ (fl <= 0 -> taken = []) /\
+    (0 < fl -> fl < tot taken -> exists pre x, taken = pre ++ [x] /\ tot pre < fl).
 Proof.
   induction above as [|[pos p] rest0 IH]; intros fl o trt acc Hnn.
   - exists [], []. cbn [fill_up4 tot app]. rewrite app_nil_r.
     replace (Z.min (Z.max 0 fl) 0) with 0 by lia. replace (o + 0) with o by lia.
-    destruct (fl <=? 0) eqn:E; destruct ((0 <? fl) && (fl <? 0)) eqn:E2; try lia; repeat split; auto.
+    destruct (fl <=? 0) eqn:E; destruct ((0 <? fl) && (fl <? 0)) eqn:E2; try lia; splits; auto; intros; lia.
   - inversion Hnn as [|? ? Hp Hrest]; subst. cbn [snd] in Hp.
     cbn [fill_up4]. destruct (fl <=? 0) eqn:E.
     + exists [], ((pos, p) :: rest0). cbn [tot app]. rewrite app_nil_r.
       replace (Z.min (Z.max 0 fl) 0) with 0 by lia. replace (o + 0) with o by lia.
-      destruct ((0 <? fl) && (fl <? 0)) eqn:E2; [lia|]. repeat split; auto. intros; lia.
+      destruct ((0 <? fl) && (fl <? 0)) eqn:E2; [lia|]. splits; auto; intros; lia.
     + destruct (fl <? p) eqn:E1.
       * exists [(pos, p)], rest0. cbn [tot app snd].
         replace (p + 0) with p by lia.
         destruct ((0 <? fl) && (fl <? p)) eqn:E2; [|lia].
         replace (Z.min (Z.max 0 fl) p) with fl by lia.
-        repeat split; auto; intros; lia.
+        splits; auto; try (intros; lia); intros; exists [], (pos, p); split; [reflexivity | cbn [tot]; lia].
       * destruct (IH (fl - p) (o + p) trt (acc ++ [(pos, p)]) Hrest)
-          as (taken & rest & Heq & Habove & Hex & Hz).
+          as (taken & rest & Heq & Habove & Hex & Hz & Hl).
         exists ((pos, p) :: taken), rest. rewrite Heq. cbn [tot app snd].
-        split; [|split; [now rewrite Habove | split; [intros; apply Hex; lia | intros; lia]]].
+        split; [|split; [now rewrite Habove | split; [intros; apply Hex; lia | split; [intros; lia |]]]].
+        2: { intros H0 Hlt.
+             assert (Hpos : 0 < fl - p).
+             { destruct (Z.eq_dec (fl - p) 0) as [Hq|Hq]; [|lia]. rewrite (Hz ltac:(lia)) in Hlt. cbn [tot] in Hlt. lia. }
+             destruct (Hl Hpos ltac:(lia)) as (pre & x & Hpre & Htp).
+             exists ((pos, p) :: pre), x. split; [now rewrite Hpre | cbn [tot snd]; lia]. }
         f_equal; [f_equal|].
         -- now rewrite <- app_assoc.
         -- lia.
@@ -198,8 +218,6 @@ Qed.
 
 (* ------------------------------------------------------------------------------------- *)
 (* the offset / inset the loops start from (get_focus_offset_inset, clamp, cursor adjust) *)
-Ltac splits := repeat match goal with |- _ /\ _ => split end.
-
 Lemma adjust_ok : forall h maxrow o0 i0 cur,
   1 <= maxrow -> 0 <= o0 -> 0 <= i0 -> (o0 = 0 \/ i0 = 0) -> (1 <= h -> i0 < h) -> (h = 0 -> i0 = 0) ->
   (forall cy, cur = Some cy -> 0 <= cy < h) ->
@@ -262,6 +280,10 @@ Definition VisFacts (above below : list fitem) (fpos h maxrow : Z) (cur : option
   exists t2 t4 restA takenB restB,
     above = (t2 ++ t4) ++ restA /\ below = takenB ++ restB /\
     v_above v = filter nzf t2 ++ t4 /\ v_below v = filter nzf takenB /\
+    (* a trim only cuts into the outermost widget *)
+    (0 < v_trim_top v ->
+       (exists pre x, t2 ++ t4 = pre ++ [x] /\ v_trim_top v < snd x) \/ (t2 ++ t4 = [] /\ v_trim_top v < h)) /\
+    (0 < v_trim_bottom v -> takenB <> [] -> exists pre x, takenB = pre ++ [x] /\ v_trim_bottom v < snd x) /\
     let A := tot (t2 ++ t4) in let B := tot takenB in let oi := v_off_inset v in
     let trt := v_trim_top v in let trb := v_trim_bottom v in
     let fr := maxrow - (oi + h + B - trb) in
@@ -280,13 +302,14 @@ Proof.
   destruct (pre_ok h o n d maxrow cur Hh Ho Hnd Hmr Hcur)
     as (o0 & i0 & o1 & i1 & Efo & Eca & Ho1 & Hi1 & Hoi & Hih & Hi0 & Hcv).
   unfold calc_vis. rewrite Efo, Eca.
-  destruct (fill_up2_spec above o1 o1 i1 [] ltac:(lia) Hna) as (t2 & r2 & E2 & Hab & Hex2 & Hz2).
+  destruct (fill_up2_spec above o1 o1 i1 [] ltac:(lia) Hna) as (t2 & r2 & E2 & Hab & Hex2 & Hz2 & Hl2).
   rewrite E2. cbn [app].
   assert (Hn2 : nonneg t2 /\ nonneg r2) by (apply nonneg_app; now rewrite <- Hab).
   destruct Hn2 as [Hnt2 Hnr2].
   pose proof (tot_nonneg _ Hnt2) as HT2.
   match goal with |- context [fill_down ?b ?fl ?tb ?acc] =>
-    destruct (fill_down_spec b fl tb acc Hnb) as (tB & rB & E3 & Hbe & Hex3 & Hz3) end.
+    remember fl as fl3 eqn:Hfl3;
+    destruct (fill_down_spec b fl3 tb acc Hnb) as (tB & rB & E3 & Hbe & Hex3 & Hz3 & Hl3) end.
   rewrite E3. cbn [app].
   assert (HnB : nonneg tB /\ nonneg rB) by (apply nonneg_app; now rewrite <- Hbe).
   destruct HnB as [HntB HnrB].
@@ -297,7 +320,8 @@ Proof.
   { destruct (o1 <? tot t2) eqn:?; lia. }
   rewrite ER.
   match goal with |- context [fill_up4 ?a ?fl ?oo ?tt ?acc] =>
-    destruct (fill_up4_spec a fl oo tt acc Hnr2) as (t4 & r4 & E4 & Hab4 & Hex4 & Hz4) end.
+    remember fl as fl4 eqn:Hfl4; remember tt as trt4 eqn:Htrt4;
+    destruct (fill_up4_spec a fl4 oo trt4 acc Hnr2) as (t4 & r4 & E4 & Hab4 & Hex4 & Hz4 & Hl4) end.
   rewrite E4.
   assert (Hn4 : nonneg t4 /\ nonneg r4) by (apply nonneg_app; now rewrite <- Hab4).
   destruct Hn4 as [Hnt4 Hnr4].
@@ -308,21 +332,40 @@ Proof.
   exists t2, t4, r4, tB, rB.
   split; [rewrite Hab, Hab4; now rewrite app_assoc|].
   split; [assumption|]. split; [reflexivity|]. split; [reflexivity|].
-  clear E2 E3 ER E4 Efo Eca.
-  rewrite tot_app.
   assert (Hz2' : o1 = 0 -> tot t2 = 0) by (intros Hq; now rewrite (Hz2 Hq)).
   assert (Hz3' := fun Hq => f_equal tot (Hz3 Hq)).
   assert (Hz4' := fun Hq => f_equal tot (Hz4 Hq)).
   cbn [tot] in Hz3', Hz4'.
+  split.
+  { (* the top trim *)
+    intros Hpos. destruct ((0 <? fl4) && (fl4 <? tot t4)) eqn:C3.
+    - destruct (Hl4 ltac:(lia) ltac:(lia)) as (pre & x & Ex & Hlt). left. exists (t2 ++ pre), x.
+      split; [now rewrite Ex, app_assoc|]. rewrite Ex, tot_app in Hpos |- *. cbn [tot] in *. lia.
+    - assert (Et4 : t4 = []) by (apply Hz4; lia). rewrite Et4, app_nil_r.
+      destruct (o1 <? tot t2) eqn:C1.
+      + destruct (Hl2 ltac:(lia) ltac:(lia)) as (pre & x & Ex & Hlt). left. exists pre, x.
+        split; [assumption|]. rewrite Ex, tot_app in *. cbn [tot] in *. lia.
+      + right. assert (Et2 : t2 = []) by (apply Hz2; lia). split; [assumption | lia]. }
+  split.
+  { (* the bottom trim *)
+    intros Hpos Hne. destruct ((0 <? fl3) && (fl3 <? tot tB)) eqn:C2.
+    - destruct (Hl3 ltac:(lia) ltac:(lia)) as (pre & x & Ex & Hlt). exists pre, x.
+      split; [assumption|]. rewrite Ex, tot_app in *. cbn [tot] in *. lia.
+    - exfalso. apply Hne. apply Hz3. lia. }
+  clear E2 E3 ER E4 Efo Eca Hl2 Hl3 Hl4 Hz2 Hz3 Hz4 Hna Hnb Hnt2 Hnr2 HntB HnrB Hnt4 Hnr4 Hab Hbe Hab4 Ho Hnd.
+  rewrite tot_app.
   remember (tot t2) as T2 eqn:HeqT2; clear HeqT2.
   remember (tot tB) as TB eqn:HeqTB; clear HeqTB.
   remember (tot t4) as T4 eqn:HeqT4; clear HeqT4.
+  subst fl4 trt4 fl3.
   destruct (o1 <? T2) eqn:C1;
-  match goal with |- context [(0 <? ?a) && (?a <? TB)] => destruct ((0 <? a) && (a <? TB)) eqn:C2 end;
+  [replace (Z.max 0 (o1 - T2)) with 0 in * by lia; replace (o1 - 0) with o1 in * by lia
+  |replace (Z.max 0 (o1 - T2)) with (o1 - T2) in * by lia; replace (o1 - (o1 - T2)) with T2 in * by lia];
+  match goal with |- context [(0 <? ?a) && (?a <? TB)] =>
+    destruct ((0 <? a) && (a <? TB)) eqn:C2; [replace (Z.max 0 (a - TB)) with 0 in * by lia|] end;
   match goal with |- context [(0 <? ?a) && (?a <? T4)] => destruct ((0 <? a) && (a <? T4)) eqn:C3 end;
   splits; try lia.
   all: try (intros Hfr; splits; try lia; first [apply Hex4; lia | apply Hex3; lia]).
   all: try (intros Hh1; exists i1; lia).
   all: try (intros cy Hc; specialize (Hcv cy Hc); specialize (Hcur cy Hc); lia).
 Qed.
-
